@@ -409,10 +409,15 @@ Definition parse_import (keyword : string) (line : nat) (ts : list token) : pres
       end
   end.
 
-(* parse_statement (220-267) without the queue: returns the statement(s) it yields.
-   None = EOF *)
-Definition parse_statement (o : oracle) (ts : list token) : pres (option (list stmt * list token)) :=
-  match skip_ws false ts with
+(* parse_statement (220-267) without the queue: returns the statement(s) it yields, the token list
+   positioned on the statement's end token, and whether an advance past it is pending (repaired code:
+   the look-ahead is deferred to the next call).  None = EOF *)
+Definition parse_statement (o : oracle) (pending : bool) (ts : list token)
+  : pres (option (list stmt * list token * bool)) :=
+  match (if pending then advance_one ts else POk ts) with
+  | PErr e => PErr e
+  | POk tsp =>
+  match skip_ws false tsp with
   | PErr e => PErr e
   | POk ts0 =>
       if cur_ty ts0 ENDMARKER then POk None else
@@ -451,25 +456,22 @@ Definition parse_statement (o : oracle) (ts : list token) : pres (option (list s
           match r with
           | PErr e => PErr e
           | POk (stmts, ts2) =>
-              if negb (in_types (ty (cur ts2)) [NEWLINE; DEDENT; ENDMARKER]) then syntax_here ts2 else
-              if cur_ty ts2 ENDMARKER then POk (Some (stmts, ts2))
-              else match advance_one ts2 with
-                   | PErr e => PErr e
-                   | POk ts3 => POk (Some (stmts, ts3))
-                   end
+              if negb (in_types (ty (cur ts2)) [NEWLINE; DEDENT; ENDMARKER]) then syntax_here ts2
+              else POk (Some (stmts, ts2, negb (cur_ty ts2 ENDMARKER)))
           end
       end
-  end.
+  end end.
 
 (* iterate: the statements yielded before the first error, and how it ended *)
-Fixpoint parse_all (fuel : nat) (o : oracle) (ts : list token) (acc : list stmt) : list stmt * option perr :=
+Fixpoint parse_all (fuel : nat) (o : oracle) (pending : bool) (ts : list token) (acc : list stmt)
+  : list stmt * option perr :=
   match fuel with
   | O => (acc, Some (EOther "OutOfFuel"))
   | S f =>
-      match parse_statement o ts with
+      match parse_statement o pending ts with
       | PErr e => (acc, Some e)
       | POk None => (acc, None)
-      | POk (Some (stmts, ts')) => parse_all f o ts' (acc ++ stmts)
+      | POk (Some (stmts, ts', pending')) => parse_all f o pending' ts' (acc ++ stmts)
       end
   end.
 
@@ -495,6 +497,6 @@ Definition run_value (p : oracle * list token) : out :=
 Definition run_stmts (p : oracle * list token) : out :=
   match settle (snd p) with
   | PErr e => OL [perr_out e]
-  | POk ts => let '(ss, e) := parse_all (S (List.length ts)) (fst p) ts [] in
+  | POk ts => let '(ss, e) := parse_all (S (List.length ts)) (fst p) false ts [] in
               OL (map stmt_out ss ++ match e with Some x => [perr_out x] | None => [] end)
   end.
